@@ -420,7 +420,7 @@ func (s neverMatchSelector) Match(n *html.Node) bool {
 }
 
 func (s neverMatchSelector) Specificity() Specificity {
-	return Specificity{0, 0, 0}
+	return Specificity{0, 1, 0}
 }
 
 func (c neverMatchSelector) PseudoElement() string {
